@@ -122,40 +122,6 @@ Lemma run_try : forall m tab top ins d body h vs,
   run_list m tab false ins d body (pre_reset m top ins d (assigned_stmt (STry body h)) vs).
 Proof. intros. cbn [run_stmt]. apply blk_eq. Qed.
 
-Fixpoint no_intro_list (ins : bool) (d : list name) (l : list stmt) : bool :=
-  match l with
-  | [] => true
-  | s1 :: r => no_intro false ins d s1 && no_intro_list ins (d ++ assigned_stmt s1) r
-  end.
-
-Lemma no_intro_blk : forall ins l d,
-  (fix go (d : list name) (l : list stmt) : bool :=
-     match l with
-     | [] => true
-     | s1 :: r => no_intro false ins d s1 && go (d ++ assigned_stmt s1) r
-     end) d l = no_intro_list ins d l.
-Proof.
-  intros ins l. induction l as [|s r IH]; intro d; [reflexivity|]. cbn [no_intro_list]. rewrite <- IH. reflexivity.
-Qed.
-
-Lemma no_intro_if : forall top ins d x body els,
-  no_intro top ins d (SIf x body els) =
-  no_fresh top ins d (assigned_stmt (SIf x body els)) && no_intro_list ins d body && no_intro_list ins d els.
-Proof. intros. cbn [no_intro]. rewrite !no_intro_blk. reflexivity. Qed.
-
-Lemma no_intro_for : forall top ins d c body,
-  no_intro top ins d (SFor c body) = no_fresh top ins d (assigned_stmt (SFor c body)) && no_intro_list ins d body.
-Proof. intros. cbn [no_intro]. rewrite !no_intro_blk. reflexivity. Qed.
-
-Lemma no_intro_while : forall top ins d x body,
-  no_intro top ins d (SWhile x body) = no_fresh top ins d (assigned_stmt (SWhile x body)) && no_intro_list ins d body.
-Proof. intros. cbn [no_intro]. rewrite !no_intro_blk. reflexivity. Qed.
-
-Lemma no_intro_try : forall top ins d body h,
-  no_intro top ins d (STry body h) =
-  no_fresh top ins d (assigned_stmt (STry body h)) && no_intro_list ins d body && no_intro_list ins d h.
-Proof. intros. cbn [no_intro]. rewrite !no_intro_blk. reflexivity. Qed.
-
 (* ------------------------------------------------------------------ the break guard *)
 Definition base (main : bool) (ld : nat) : Prop := ld = O \/ (main = true /\ ld = 1%nat).
 
@@ -265,12 +231,18 @@ Qed.
 Lemma ann_ok_app : forall main ld a b, ann_ok main ld (a ++ b) = ann_ok main ld a && ann_ok main ld b.
 Proof. intros. unfold ann_ok. apply forallb_app. Qed.
 
-Lemma transl_ok_split : forall its d,
-  transl_ok its = true ->
+Lemma transl_ok_breaks : forall its, transl_ok its = true -> breaks_ok its = true.
+Proof. intros its H. unfold transl_ok in H. apply andb_true_iff in H as [H _]. exact H. Qed.
+
+Lemma transl_ok_main_last : forall its, transl_ok its = true -> main_last its = true.
+Proof. intros its H. unfold transl_ok in H. apply andb_true_iff in H as [_ H]. exact H. Qed.
+
+Lemma breaks_ok_split : forall its d,
+  breaks_ok its = true ->
   ann_ok false 0 (fst (split_d d its)) = true /\ ann_ok true 1 (snd (split_d d its)) = true.
 Proof.
   induction its as [|it r IH]; intros d Hok; [split; reflexivity|].
-  unfold transl_ok in Hok. cbn [forallb] in Hok. apply andb_true_iff in Hok as [H1 H2].
+  unfold breaks_ok in Hok. cbn [forallb] in Hok. apply andb_true_iff in Hok as [H1 H2]. fold (breaks_ok r) in H2.
   destruct it as [s|body|f body].
   - cbn [split_d]. specialize (IH (d ++ assigned_stmt s) H2).
     destruct (split_d (d ++ assigned_stmt s) r) as [a b]. cbn [fst snd] in *. destruct IH as [Ha Hb].
@@ -280,6 +252,11 @@ Proof.
     split; [exact Ha|]. rewrite ann_ok_app, ann_ok_ann. cbn [item_ok] in H1. rewrite H1. exact Hb.
   - cbn [split_d]. apply IH. exact H2.
 Qed.
+
+Lemma transl_ok_split : forall its d,
+  transl_ok its = true ->
+  ann_ok false 0 (fst (split_d d its)) = true /\ ann_ok true 1 (snd (split_d d its)) = true.
+Proof. intros its d H. apply breaks_ok_split, transl_ok_breaks, H. Qed.
 
 Lemma base_setup : base false 0. Proof. left; reflexivity. Qed.
 Lemma base_main : base true 1. Proof. right; split; reflexivity. Qed.
@@ -309,7 +286,7 @@ Lemma break_guard_rejects_main : forall its body,
   In (IMainLoop body) its -> brk_at body -> transl_ok its = false.
 Proof.
   intros its body Hin Hb. destruct (transl_ok its) eqn:E; [|reflexivity].
-  unfold transl_ok in E. rewrite forallb_forall in E. specialize (E _ Hin). cbn [item_ok] in E.
+  apply transl_ok_breaks in E. unfold breaks_ok in E. rewrite forallb_forall in E. specialize (E _ Hin). cbn [item_ok] in E.
   rewrite (brk_at_rejected true 1 base_main body Hb) in E. discriminate.
 Qed.
 
@@ -317,67 +294,59 @@ Lemma break_guard_rejects_top : forall its s,
   In (IStmt s) its -> brk_at [s] -> transl_ok its = false.
 Proof.
   intros its s Hin Hb. destruct (transl_ok its) eqn:E; [|reflexivity].
-  unfold transl_ok in E. rewrite forallb_forall in E. specialize (E _ Hin). cbn [item_ok] in E.
+  apply transl_ok_breaks in E. unfold breaks_ok in E. rewrite forallb_forall in E. specialize (E _ Hin). cbn [item_ok] in E.
   pose proof (brk_at_rejected false 0 base_setup [s] Hb) as H. cbn [forallb] in H. rewrite E in H. discriminate.
 Qed.
 
-(* ------------------------------------------------------------------ the C++ lifetime rules do not matter inside the guard *)
+(* ------------------------------------------------------------------ the emitted C++ runs the statements Python runs *)
 Lemma reset_nil : forall vs, reset [] vs = vs.
 Proof. reflexivity. Qed.
 
-Lemma pre_reset_guard : forall m top ins d nn vs, no_fresh top ins d nn = true -> pre_reset m top ins d nn vs = vs.
-Proof.
-  intros m top ins d nn vs H. unfold pre_reset, resets_here. destruct m; [reflexivity|].
-  unfold no_fresh in H. destruct (top && ins); [reflexivity|]. cbn [negb orb] in *.
-  destruct (fresh d nn); [reflexivity|discriminate].
-Qed.
+(* nothing is re-initialised in front of a block *)
+Lemma pre_reset_id : forall m top ins d nn vs, pre_reset m top ins d nn vs = vs.
+Proof. reflexivity. Qed.
 
 Lemma mode_indep_list : forall l,
-  Forall (fun s => forall tab top ins d vs, no_intro top ins d s = true ->
+  Forall (fun s => forall tab top ins d vs,
                    run_stmt MC tab top ins d s vs = run_stmt MPy tab top ins d s vs) l ->
-  forall tab ins d vs, no_intro_list ins d l = true ->
+  forall tab ins d vs,
   run_list MC tab false ins d l vs = run_list MPy tab false ins d l vs.
 Proof.
-  intros l HF. induction HF as [|s r Hs _ IH]; intros tab ins d vs Hn; [reflexivity|].
-  cbn [no_intro_list] in Hn. apply andb_true_iff in Hn as [H1 H2].
-  cbn [run_list]. rewrite (Hs tab false ins d vs H1).
+  intros l HF. induction HF as [|s r Hs _ IH]; intros tab ins d vs; [reflexivity|].
+  cbn [run_list]. rewrite (Hs tab false ins d vs).
   destruct (run_stmt MPy tab false ins d s vs) as [[v1 t1] [|]]; [reflexivity|].
-  rewrite (IH tab ins _ v1 H2). reflexivity.
+  rewrite (IH tab ins _ v1). reflexivity.
 Qed.
 
 Lemma mode_indep_stmt : forall s tab top ins d vs,
-  no_intro top ins d s = true -> run_stmt MC tab top ins d s vs = run_stmt MPy tab top ins d s vs.
+  run_stmt MC tab top ins d s vs = run_stmt MPy tab top ins d s vs.
 Proof.
   intro s. induction s as [id dev|dd|x e|dv x|l| |x b el IHb IHe|c b IHb|x b IHb|b h IHb IHh] using stmt_ind';
-    intros tab top ins d vs Hn; try reflexivity.
-  - rewrite no_intro_if in Hn. apply andb_true_iff in Hn as [Hn H3]. apply andb_true_iff in Hn as [H1 H2].
-    rewrite !run_if, !pre_reset_guard by exact H1.
+    intros tab top ins d vs.
+  1-6: reflexivity.
+  - rewrite !run_if, !pre_reset_id.
     destruct (vread x vs) as [c vs1]. destruct (c =? 0); apply mode_indep_list; assumption.
-  - rewrite no_intro_for in Hn. apply andb_true_iff in Hn as [H1 H2].
-    rewrite !run_for, !pre_reset_guard by exact H1. clear H1.
+  - rewrite !run_for, !pre_reset_id.
     generalize vs. induction c as [|k IHk]; intro v; [reflexivity|].
-    cbn [for_iter]. rewrite (mode_indep_list b IHb tab ins d v H2).
+    cbn [for_iter]. rewrite (mode_indep_list b IHb tab ins d v).
     destruct (run_list MPy tab false ins d b v) as [[v1 t1] [|]]; [reflexivity|].
     rewrite IHk. reflexivity.
-  - rewrite no_intro_while in Hn. apply andb_true_iff in Hn as [H1 H2].
-    rewrite !run_while, !pre_reset_guard by exact H1.
+  - rewrite !run_while, !pre_reset_id.
     generalize vs. generalize while_fuel. induction n as [|k IHk]; intro v; [reflexivity|].
     cbn [while_iter]. destruct (vread x v) as [c v0]. destruct (c =? 0); [reflexivity|].
-    rewrite (mode_indep_list b IHb tab ins d v0 H2).
+    rewrite (mode_indep_list b IHb tab ins d v0).
     destruct (run_list MPy tab false ins d b v0) as [[v1 t1] [|]]; [reflexivity|].
     rewrite IHk. reflexivity.
-  - rewrite no_intro_try in Hn. apply andb_true_iff in Hn as [Hn H3]. apply andb_true_iff in Hn as [H1 H2].
-    rewrite !run_try, !pre_reset_guard by exact H1. apply mode_indep_list; assumption.
+  - rewrite !run_try, !pre_reset_id. apply mode_indep_list; assumption.
 Qed.
 
 Lemma mode_indep_ann : forall l tab ins v,
-  no_intro_ann ins l = true -> run_ann MC tab ins l v = run_ann MPy tab ins l v.
+  run_ann MC tab ins l v = run_ann MPy tab ins l v.
 Proof.
-  induction l as [|[d s] r IH]; intros tab ins v Hn; [reflexivity|].
-  unfold no_intro_ann in Hn. cbn [forallb fst snd] in Hn. apply andb_true_iff in Hn as [H1 H2].
-  cbn [run_ann]. rewrite (mode_indep_stmt s tab true ins d v H1).
+  induction l as [|[d s] r IH]; intros tab ins v; [reflexivity|].
+  cbn [run_ann]. rewrite (mode_indep_stmt s tab true ins d v).
   destruct (run_stmt MPy tab true ins d s v) as [[v1 t1] [|]]; [reflexivity|].
-  rewrite (IH tab ins v1 H2). reflexivity.
+  rewrite (IH tab ins v1). reflexivity.
 Qed.
 
 Lemma drop_nil : forall vs, drop [] vs = vs.
@@ -784,17 +753,17 @@ Fixpoint ann_passes (tab : list decl) (l : list (list name * stmt)) (n : nat) (v
   end.
 
 Lemma passes_refine : forall inp p,
-  p_locals p = [] -> no_intro_ann false (p_loop p) = true ->
+  p_locals p = [] ->
   forall n v h,
   fst (run_passes MC inp p n v h) = fst (ann_passes (p_tab p) (p_loop p) n v) /\
   map obs (snd (run_passes MC inp p n v h)) = map obs (snd (ann_passes (p_tab p) (p_loop p) n v)).
 Proof.
-  intros inp p Hloc Hni. induction n as [|n IH]; intros v h; [split; reflexivity|].
+  intros inp p Hloc. induction n as [|n IH]; intros v h; [split; reflexivity|].
   cbn [run_passes ann_passes]. unfold run_pass.
   pose proof (hk_poll_all inp p (p_polls p) h) as Hp.
   destruct (poll_all inp p (p_polls p) h) as [h1 tp]. cbn [snd] in Hp.
   destruct (run_annT_eqv (p_G p) MC false (p_tab p) (p_loop p) (stS p) v) as (E1 & E2 & E3).
-  rewrite (mode_indep_ann (p_loop p) (p_tab p) false v Hni) in E1, E2, E3.
+  rewrite (mode_indep_ann (p_loop p) (p_tab p) false v) in E1, E2, E3.
   destruct (run_annT (p_G p) MC false (stS p) (p_loop p) v) as [[v1' tb'] brk'].
   destruct (run_ann MPy (p_tab p) false (p_loop p) v) as [[v1 tb] brk].
   unfold tr in E3. cbn [fst snd] in E1, E2, E3. subst v1' brk'.
@@ -828,7 +797,7 @@ Lemma main_last_cons_main : forall b r, main_last (IMainLoop b :: r) = true -> r
 Proof. intros b [|x r] H; [reflexivity|]. cbn in H. discriminate. Qed.
 
 Lemma py_shape : forall its tab d n v,
-  main_last its = true -> transl_ok its = true ->
+  main_last its = true -> breaks_ok its = true ->
   exists v1 t1, run_ann MPy tab true (fst (split_d d its)) v = (v1, t1, false) /\
    ((no_main its = true /\ snd (split_d d its) = [] /\ py_items tab d its n v = (v1, t1, [])) \/
     (no_main its = false /\ exists d' body, snd (split_d d its) = ann d' body /\
@@ -836,7 +805,7 @@ Lemma py_shape : forall its tab d n v,
 Proof.
   induction its as [|it r IH]; intros tab d n v Hml Hok.
   - exists v, []. split; [reflexivity|]. left. repeat split; reflexivity.
-  - unfold transl_ok in Hok. cbn [forallb] in Hok. apply andb_true_iff in Hok as [H1 H2].
+  - unfold breaks_ok in Hok. cbn [forallb] in Hok. apply andb_true_iff in Hok as [H1 H2]. fold (breaks_ok r) in H2.
     destruct it as [s|body|f body].
     + rewrite main_last_cons_stmt in Hml. cbn [item_ok] in H1.
       pose proof (IH tab (d ++ assigned_stmt s) n) as IHr. clear IH.
@@ -858,35 +827,41 @@ Proof.
 Qed.
 
 (* ------------------------------------------------------------------ C05: once, then repeat *)
-Lemma vars_persist_parts : forall its, vars_persist its = true ->
-  p_locals (transl its) = [] /\ no_intro_ann true (p_setup (transl its)) = true /\
-  no_intro_ann false (p_loop (transl its)) = true.
+(* no name is a local of loop() *)
+Lemma classify_no_locals : forall its d, snd (classify d its) = [].
 Proof.
-  intros its H. unfold vars_persist in H. apply andb_true_iff in H as [H H3]. apply andb_true_iff in H as [H1 H2].
-  repeat split; try assumption. destruct (p_locals (transl its)); [reflexivity|discriminate].
+  induction its as [|it r IH]; intro d; [reflexivity|]. destruct it as [s|b|f b]; cbn [classify].
+  - specialize (IH (d ++ fresh d (assigned_stmt s))). destruct (classify (d ++ fresh d (assigned_stmt s)) r) as [g l]. exact IH.
+  - specialize (IH (d ++ fresh d (flat_map assigned_stmt b))).
+    destruct (classify (d ++ fresh d (flat_map assigned_stmt b)) r) as [g l]. exact IH.
+  - apply IH.
 Qed.
 
-(* inside the guard the firmware's observable trace is CPython's, phase by phase *)
-Lemma once_then_repeat_guarded : forall inp n its,
-  transl_ok its = true -> vars_persist its = true -> one_main_last its = true ->
+Lemma no_locals : forall its, locals_of its = [].
+Proof. intro its. apply classify_no_locals. Qed.
+
+(* for every accepted program the firmware's observable trace is CPython's, phase by phase *)
+Lemma once_then_repeat_accepted : forall inp n its,
+  transl_ok its = true ->
   forall ts tl cu ps pl pu,
   exec_phases inp n its = (ts, tl, cu) -> py_phases n its = (ps, pl, pu) ->
   obs ts = obs ps /\ concat (map obs tl) = concat (map obs pl) /\ cu = pu /\
   (no_main its = false -> map obs tl = map obs pl).
 Proof.
-  intros inp n its Hok Hvp Hml ts tl cu ps pl pu Hc Hp.
-  destruct (vars_persist_parts its Hvp) as (Hloc & Hns & Hnl).
+  intros inp n its Hok ts tl cu ps pl pu Hc Hp.
+  pose proof (transl_ok_main_last its Hok) as Hml. pose proof (transl_ok_breaks its Hok) as Hbr.
+  assert (Hloc : p_locals (transl its) = []) by apply no_locals.
   unfold exec_phases, run_setup in Hc. unfold py_phases in Hp.
   set (p := transl its) in *. set (tab := flat_map decls_stmt (all_stmts its)) in *.
   assert (Htab : p_tab p = tab) by reflexivity.
   assert (Hset : p_setup p = fst (split_d [] its)) by reflexivity.
   assert (Hloop : p_loop p = snd (split_d [] its)) by reflexivity.
-  destruct (py_shape its tab [] n v0 Hml Hok) as (v1 & t1 & Hr & Hcase).
+  destruct (py_shape its tab [] n v0 Hml Hbr) as (v1 & t1 & Hr & Hcase).
   destruct (run_annT_eqv (p_G p) MC true tab (p_setup p) (st0 p) v0) as (E1 & E2 & E3).
-  rewrite (mode_indep_ann (p_setup p) tab true v0 Hns), Hset, Hr in E1, E2, E3. rewrite <- Hset in E1, E2, E3.
+  rewrite (mode_indep_ann (p_setup p) tab true v0), Hset, Hr in E1, E2, E3. rewrite <- Hset in E1, E2, E3.
   destruct (run_annT (p_G p) MC true (st0 p) (p_setup p) v0) as [[vS tS] bS].
   unfold tr in E3. cbn [fst snd] in E1, E2, E3. subst vS bS.
-  destruct (passes_refine inp p Hloc Hnl n v1 (setup_h inp p)) as [Hv Ht].
+  destruct (passes_refine inp p Hloc n v1 (setup_h inp p)) as [Hv Ht].
   destruct (run_passes MC inp p n v1 _) as [v' tl'] eqn:Erp. inversion Hc; subst ts tl cu. clear Hc.
   cbn [fst snd] in Hv, Ht. rewrite Htab, Hloop in Hv, Ht.
   rewrite obs_app, (obs_nobs _ (nobs_hoists p)). cbn [app]. rewrite (obs_eqv _ _ E3).
@@ -911,12 +886,12 @@ Proof.
 Qed.
 
 Lemma once_then_repeat_trace : forall inp n its,
-  transl_ok its = true -> vars_persist its = true -> one_main_last its = true ->
+  transl_ok its = true ->
   obs (exec inp n its) = py_exec n its.
 Proof.
-  intros inp n its Hok Hvp Hml. unfold exec, py_exec.
+  intros inp n its Hok. unfold exec, py_exec.
   destruct (exec_phases inp n its) as [[ts tl] cu] eqn:Ec. destruct (py_phases n its) as [[ps pl] pu] eqn:Ep.
-  destruct (once_then_repeat_guarded inp n its Hok Hvp Hml _ _ _ _ _ _ Ec Ep) as (H1 & H2 & _ & _).
+  destruct (once_then_repeat_accepted inp n its Hok _ _ _ _ _ _ Ec Ep) as (H1 & H2 & _ & _).
   rewrite obs_app, obs_concat, H1, H2. reflexivity.
 Qed.
 
@@ -970,18 +945,18 @@ Definition no_input : Z -> nat -> bool := fun _ _ => false.
    while True:
        if flag:
            c0 = 0; flag = 0
-       c0 = c0 + 1; mon.write(c0)            CPython 1 2 3, firmware 1 1 1 *)
+       c0 = c0 + 1; mon.write(c0)            CPython 1 2 3; firmware 1 2 3 (was 1 1 1 while c0 was a local of loop()) *)
 Definition w_looplocal : list item :=
   [IStmt (SDecl d_mon); IStmt (SSet n_flag (RConst 1));
    IMainLoop [SIf n_flag [SSet n_c0 (RConst 0); SSet n_flag (RConst 0)] [];
               SSet n_c0 (RAdd n_c0 1); SShow n_mon n_c0]].
 
-(* mon.write("m1"); while True: mon.write("m2");  mon.write("m3") *)
+(* mon.write("m1"); while True: mon.write("m2");  mon.write("m3")      rejected by parse() *)
 Definition w_postloop : list item :=
   [IStmt (SDecl d_mon); IStmt (SMark 1 (Some n_mon)); IMainLoop [SMark 2 (Some n_mon)];
    IStmt (SMark 3 (Some n_mon))].
 
-(* mon.write("m1"); while True: mon.write("m2");  while True: mon.write("m3") *)
+(* mon.write("m1"); while True: mon.write("m2");  while True: mon.write("m3")      rejected by parse() *)
 Definition w_twoloops : list item :=
   [IStmt (SDecl d_mon); IStmt (SMark 1 (Some n_mon)); IMainLoop [SMark 2 (Some n_mon)];
    IMainLoop [SMark 3 (Some n_mon)]].
@@ -996,53 +971,65 @@ Definition w_good : list item :=
               SSet n_g (RAdd n_g 2); SShow n_mon n_g;
               SFor 2 [SIf n_g [SBreak] []; SMark 3 None]]].
 
-Lemma looplocal_refuted :
-  transl_ok w_looplocal = true /\ one_main_last w_looplocal = true /\ vars_ok w_looplocal = false /\
-  obs (exec no_input 3 w_looplocal) = [EVal n_c0 1; EVal n_c0 1; EVal n_c0 1] /\
+(* a name first assigned inside [while True:] (here: promoted out of an [if] in its body) is a sketch global: loop_body
+   only assigns, no [VarDecl] node, and the firmware prints what CPython prints *)
+Lemma looplocal_persists :
+  transl_ok w_looplocal = true /\ globals_of w_looplocal = [n_flag; n_c0] /\ locals_of w_looplocal = [] /\
+  ir_loop w_looplocal = [NIf n_flag [NVarAssign n_c0; NVarAssign n_flag] []; NVarAssign n_c0; NShow n_c0] /\
+  obs (exec no_input 3 w_looplocal) = [EVal n_c0 1; EVal n_c0 2; EVal n_c0 3] /\
   py_exec 3 w_looplocal = [EVal n_c0 1; EVal n_c0 2; EVal n_c0 3].
 Proof. vm_compute. repeat split; reflexivity. Qed.
 
-Lemma postloop_refuted :
-  transl_ok w_postloop = true /\ vars_ok w_postloop = true /\ one_main_last w_postloop = false /\
-  obs (exec no_input 2 w_postloop) = [EMark 1; EMark 3; EMark 2; EMark 2] /\
-  py_exec 2 w_postloop = [EMark 1; EMark 2; EMark 2].
+(* anything after the main loop: rejected (the break guard alone would accept both programs) *)
+Lemma postloop_rejected_examples :
+  transl_ok w_postloop = false /\ breaks_ok w_postloop = true /\
+  transl_ok w_twoloops = false /\ breaks_ok w_twoloops = true.
 Proof. vm_compute. repeat split; reflexivity. Qed.
 
-Lemma twoloops_refuted :
-  transl_ok w_twoloops = true /\ vars_ok w_twoloops = true /\ one_main_last w_twoloops = false /\
-  obs (exec no_input 2 w_twoloops) = [EMark 1; EMark 2; EMark 3; EMark 2; EMark 3] /\
-  py_exec 2 w_twoloops = [EMark 1; EMark 2; EMark 2].
-Proof. vm_compute. repeat split; reflexivity. Qed.
+Lemma main_last_cons_ne : forall x y r, main_last (x :: y :: r) = negb (is_main x) && main_last (y :: r).
+Proof. intros [s|b|f b] y r; reflexivity. Qed.
+
+Lemma main_last_after : forall a body it r, main_last (a ++ IMainLoop body :: it :: r) = false.
+Proof.
+  induction a as [|x a IH]; intros body it r; [reflexivity|].
+  cbn [app]. destruct (a ++ IMainLoop body :: it :: r) as [|y t] eqn:E.
+  - destruct a; discriminate.
+  - rewrite main_last_cons_ne, <- E, IH. apply andb_false_r.
+Qed.
+
+(* whatever is written after a column-0 [while True:] block - a statement, a def, another [while True:] - and whatever
+   stands before it: parse() rejects the program *)
+Lemma after_main_rejected : forall a body it r, transl_ok (a ++ IMainLoop body :: it :: r) = false.
+Proof. intros. unfold transl_ok, one_main_last. rewrite main_last_after. apply andb_false_r. Qed.
+
+(* and that is the only thing the new clause rejects: a program with no main loop, or with one as its last item,
+   is accepted iff its breaks are legal *)
+Lemma main_last_shape : forall its, main_last its = true ->
+  no_main its = true \/ exists a body, its = a ++ [IMainLoop body] /\ no_main a = true.
+Proof.
+  induction its as [|x r IH]; intro H; [left; reflexivity|].
+  destruct r as [|y t].
+  - destruct x as [s|b|f b]; [left; reflexivity| |left; reflexivity].
+    right. exists [], b. split; reflexivity.
+  - rewrite main_last_cons_ne in H. apply andb_true_iff in H as [H1 H2].
+    destruct (IH H2) as [Hn|(a & body & E & Hn)].
+    + left. unfold no_main in *. cbn [forallb]. rewrite H1. exact Hn.
+    + right. exists (x :: a), body. split; [cbn [app]; rewrite E; reflexivity|].
+      unfold no_main in *. cbn [forallb]. rewrite H1. exact Hn.
+Qed.
+
+Lemma accepted_shape : forall its, transl_ok its = true ->
+  breaks_ok its = true /\
+  (no_main its = true \/ exists a body, its = a ++ [IMainLoop body] /\ no_main a = true).
+Proof.
+  intros its H. split; [exact (transl_ok_breaks its H)|exact (main_last_shape its (transl_ok_main_last its H))].
+Qed.
 
 Lemma good_nonvacuous :
-  transl_ok w_good = true /\ vars_persist w_good = true /\ one_main_last w_good = true /\
+  transl_ok w_good = true /\ one_main_last w_good = true /\
   no_main w_good = false /\
   py_exec 2 w_good = [EMark 1; EMark 2; EVal n_g 2; EMark 2; EVal n_g 4].
 Proof. vm_compute. repeat split; reflexivity. Qed.
-
-Lemma looplocal_refuted_ex : exists its inp n,
-  transl_ok its = true /\ one_main_last its = true /\ vars_ok its = false /\
-  obs (exec inp n its) <> py_exec n its.
-Proof.
-  exists w_looplocal, no_input, 3%nat. destruct looplocal_refuted as (H1 & H2 & H3 & H4 & H5).
-  repeat split; try assumption. rewrite H4, H5. discriminate.
-Qed.
-
-Lemma postloop_refuted_ex : exists its inp n,
-  transl_ok its = true /\ vars_ok its = true /\ one_main_last its = false /\
-  obs (exec inp n its) <> py_exec n its.
-Proof.
-  exists w_postloop, no_input, 2%nat. destruct postloop_refuted as (H1 & H2 & H3 & H4 & H5).
-  repeat split; try assumption. rewrite H4, H5. discriminate.
-Qed.
-
-Lemma twoloops_refuted_ex : exists its inp n,
-  transl_ok its = true /\ vars_ok its = true /\ one_main_last its = false /\
-  obs (exec inp n its) <> py_exec n its.
-Proof.
-  exists w_twoloops, no_input, 2%nat. destruct twoloops_refuted as (H1 & H2 & H3 & H4 & H5).
-  repeat split; try assumption. rewrite H4, H5. discriminate.
-Qed.
 
 Lemma break_guard_rejects : forall its,
   (forall body, In (IMainLoop body) its -> brk_at body -> transl_ok its = false) /\
@@ -2193,295 +2180,35 @@ Proof.
     rewrite !marks_app, (marks_hk _ Hk), (marks_hk _ (hk_ticks p)), HM. reflexivity.
 Qed.
 
+Definition w_straight : list item :=
+  [IStmt (SDecl d_mon); IStmt (SMark 1 (Some n_mon)); IStmt (SMark 3 None);
+   IMainLoop [SMark 2 (Some n_mon); SMark 4 None]].
+
 Lemma source_order_example :
-  marks_of (fst (fst (exec_phases no_input 2 w_postloop))) = [1; 3] /\
-  map marks_of (snd (fst (exec_phases no_input 2 w_twoloops))) = [[2; 3]; [2; 3]].
-Proof. vm_compute. split; reflexivity. Qed.
+  transl_ok w_straight = true /\
+  marks_of (fst (fst (exec_phases no_input 2 w_straight))) = [1; 3] /\
+  map marks_of (snd (fst (exec_phases no_input 2 w_straight))) = [[2; 4]; [2; 4]].
+Proof. vm_compute. repeat split; reflexivity. Qed.
 
-(* ------------------------------------------------------------------ C05: loop() locals that are assigned before they are read *)
-Definition agree (K : name -> bool) (a b : vstate) : Prop :=
-  (forall y, K y = true -> vlookup y (v_vars a) = vlookup y (v_vars b)) /\ v_undef a = v_undef b.
-
+(* ------------------------------------------------------------------ C05: names first assigned inside the main loop *)
 Lemma name_eqb_sym : forall a b, name_eqb a b = name_eqb b a.
 Proof.
   induction a as [|x a IH]; intros [|y b]; try reflexivity. cbn [name_eqb]. rewrite (Z.eqb_sym x y), IH. reflexivity.
 Qed.
 
-Lemma vlookup_vset : forall l x v y,
-  vlookup y (vset x v l) = if name_eqb y x then Some v else vlookup y l.
-Proof.
-  induction l as [|[y' w] r IH]; intros x v y.
-  - cbn [vset vlookup]. reflexivity.
-  - cbn [vset]. destruct (name_eqb x y') eqn:E.
-    + apply name_eqb_eq in E. subst y'. cbn [vlookup]. destruct (name_eqb y x); reflexivity.
-    + cbn [vlookup]. rewrite IH. destruct (name_eqb y y') eqn:E1; [|reflexivity].
-      destruct (name_eqb y x) eqn:E2; [|reflexivity].
-      apply name_eqb_eq in E1. apply name_eqb_eq in E2. subst. rewrite name_eqb_refl in E. discriminate.
-Qed.
-
-Lemma agree_write : forall K a b x v, agree K a b -> agree K (vwrite x v a) (vwrite x v b).
-Proof.
-  intros K a b x v [H1 H2]. split; [|exact H2]. intros y Hy. unfold vwrite. cbn [v_vars].
-  rewrite !vlookup_vset. destruct (name_eqb y x); [reflexivity|apply H1; exact Hy].
-Qed.
-
-Lemma agree_write_ext : forall K K' a b x v, agree K a b ->
-  (forall y, K' y = true -> K y = true \/ name_eqb y x = true) -> agree K' (vwrite x v a) (vwrite x v b).
-Proof.
-  intros K K' a b x v [H1 H2] HK. split; [|exact H2]. intros y Hy. unfold vwrite. cbn [v_vars].
-  rewrite !vlookup_vset. destruct (name_eqb y x) eqn:E; [reflexivity|].
-  destruct (HK y Hy) as [H|H]; [apply H1; exact H|congruence].
-Qed.
-
-Lemma agree_read : forall K a b x, K x = true -> agree K a b ->
-  fst (vread x a) = fst (vread x b) /\ agree K (snd (vread x a)) (snd (vread x b)).
-Proof.
-  intros K a b x Hx [H1 H2]. unfold vread. rewrite (H1 x Hx).
-  destruct (vlookup x (v_vars b)); cbn [fst snd]; split; try reflexivity; split; cbn [v_vars v_undef]; auto.
-Qed.
-
-Lemma agree_eval : forall K a b e, forallb K (reads_rhs e) = true -> agree K a b ->
-  fst (eval e a) = fst (eval e b) /\ agree K (snd (eval e a)) (snd (eval e b)).
-Proof.
-  intros K a b [z|y z] Hr Ha; cbn [eval].
-  - split; [reflexivity|exact Ha].
-  - cbn [reads_rhs forallb] in Hr. apply andb_true_iff in Hr as [Hy _].
-    destruct (agree_read K a b y Hy Ha) as [E1 E2].
-    destruct (vread y a) as [va a']. destruct (vread y b) as [vb b']. cbn [fst snd] in *. subst vb. split; [reflexivity|exact E2].
-Qed.
-
-Definition sim3 (K : name -> bool) (ra rb : res3) : Prop :=
-  tr ra = tr rb /\ snd ra = snd rb /\ agree K (fst (fst ra)) (fst (fst rb)).
-
-Definition sim_ok (K : name -> bool) (s : stmt) : Prop :=
-  forall tab top ins d a b, forallb K (reads_stmt s) = true -> agree K a b ->
-  sim3 K (run_stmt MPy tab top ins d s a) (run_stmt MPy tab top ins d s b).
-
-Lemma forallb_flat_map_in : forall (K : name -> bool) (f : stmt -> list name) l s,
-  forallb K (flat_map f l) = true -> In s l -> forallb K (f s) = true.
-Proof.
-  intros K f l s H Hin. rewrite forallb_forall in *. intros y Hy. apply H. apply in_flat_map. exists s. split; assumption.
-Qed.
-
-Lemma sim_list : forall K l, Forall (sim_ok K) l ->
-  forall tab top ins d a b, forallb K (flat_map reads_stmt l) = true -> agree K a b ->
-  sim3 K (run_list MPy tab top ins d l a) (run_list MPy tab top ins d l b).
-Proof.
-  intros K l HF. induction HF as [|s r Hs _ IH]; intros tab top ins d a b Hr Ha.
-  - repeat split; try reflexivity; apply Ha.
-  - cbn [flat_map] in Hr. rewrite forallb_app in Hr. apply andb_true_iff in Hr as [Hr1 Hr2].
-    cbn [run_list]. destruct (Hs tab top ins d a b Hr1 Ha) as (E1 & E2 & E3).
-    destruct (run_stmt MPy tab top ins d s a) as [[a1 t1] ba]. destruct (run_stmt MPy tab top ins d s b) as [[b1 t1'] bb].
-    unfold tr in E1. cbn [fst snd] in *. subst t1' bb. destruct ba.
-    + repeat split; try reflexivity; apply E3.
-    + destruct (IH tab top ins (d ++ assigned_stmt s) a1 b1 Hr2 E3) as (F1 & F2 & F3).
-      destruct (run_list MPy tab top ins (d ++ assigned_stmt s) r a1) as [[a2 t2] ba2].
-      destruct (run_list MPy tab top ins (d ++ assigned_stmt s) r b1) as [[b2 t2'] bb2].
-      unfold tr in *. cbn [fst snd] in *. subst t2' bb2. repeat split; try reflexivity; apply F3.
-Qed.
-
-Lemma pre_reset_py : forall top ins d body vs, pre_reset MPy top ins d body vs = vs.
-Proof. reflexivity. Qed.
-
-Lemma sim_stmt : forall K s, sim_ok K s.
-Proof.
-  intros K s. induction s as [id dev|dd|x e|dv x|l| |x bd el IHb IHe|cn bd IHb|x bd IHb|bd h IHb IHh] using stmt_ind';
-    intros tab top ins d a b Hr Ha.
-  - repeat split; try reflexivity; apply Ha.
-  - repeat split; try reflexivity; apply Ha.
-  - cbn [run_stmt]. cbn [reads_stmt] in Hr. destruct (agree_eval K a b e Hr Ha) as [E1 E2].
-    destruct (eval e a) as [va a']. destruct (eval e b) as [vb b']. cbn [fst snd] in *. subst vb.
-    repeat split; try reflexivity; apply (agree_write K a' b' x va E2).
-  - cbn [run_stmt]. cbn [reads_stmt forallb] in Hr. apply andb_true_iff in Hr as [Hx _].
-    destruct (agree_read K a b x Hx Ha) as [E1 E2].
-    destruct (vread x a) as [va a']. destruct (vread x b) as [vb b']. cbn [fst snd] in *. subst vb.
-    repeat split; try reflexivity; apply E2.
-  - repeat split; try reflexivity; apply Ha.
-  - repeat split; try reflexivity; apply Ha.
-  - rewrite !run_if, !pre_reset_py. cbn [reads_stmt forallb] in Hr. apply andb_true_iff in Hr as [Hx Hb].
-    rewrite forallb_app in Hb. apply andb_true_iff in Hb as [Hb He].
-    destruct (agree_read K a b x Hx Ha) as [E1 E2].
-    destruct (vread x a) as [va a']. destruct (vread x b) as [vb b']. cbn [fst snd] in *. subst vb.
-    destruct (va =? 0).
-    + apply (sim_list K el IHe); assumption.
-    + apply (sim_list K bd IHb); assumption.
-  - rewrite !run_for, !pre_reset_py. cbn [reads_stmt] in Hr.
-    revert a b Ha. induction cn as [|k IHk]; intros a b Ha.
-    + repeat split; try reflexivity; apply Ha.
-    + cbn [for_iter]. destruct (sim_list K bd IHb tab false ins d a b Hr Ha) as (E1 & E2 & E3).
-      destruct (run_list MPy tab false ins d bd a) as [[a1 t1] ba]. destruct (run_list MPy tab false ins d bd b) as [[b1 t1'] bb].
-      unfold tr in E1. cbn [fst snd] in *. subst t1' bb. destruct ba.
-      * repeat split; try reflexivity; apply E3.
-      * destruct (IHk a1 b1 E3) as (F1 & F2 & F3).
-        destruct (for_iter MPy tab ins d bd k a1) as [[a2 t2] ba2]. destruct (for_iter MPy tab ins d bd k b1) as [[b2 t2'] bb2].
-        unfold tr in *. cbn [fst snd] in *. subst t2' bb2. repeat split; try reflexivity; apply F3.
-  - rewrite !run_while, !pre_reset_py. cbn [reads_stmt forallb] in Hr. apply andb_true_iff in Hr as [Hx Hr].
-    revert a b Ha. generalize while_fuel. induction n as [|k IHk]; intros a b Ha.
-    + cbn [while_iter]. repeat split; try reflexivity; unfold out_of_fuel; cbn [fst snd v_vars v_undef]; apply Ha.
-    + cbn [while_iter]. destruct (agree_read K a b x Hx Ha) as [E1 E2].
-      destruct (vread x a) as [va a']. destruct (vread x b) as [vb b']. cbn [fst snd] in *. subst vb.
-      destruct (va =? 0); [repeat split; try reflexivity; apply E2|].
-      destruct (sim_list K bd IHb tab false ins d a' b' Hr E2) as (G1 & G2 & G3).
-      destruct (run_list MPy tab false ins d bd a') as [[a1 t1] ba]. destruct (run_list MPy tab false ins d bd b') as [[b1 t1'] bb].
-      unfold tr in G1. cbn [fst snd] in *. subst t1' bb. destruct ba.
-      * repeat split; try reflexivity; apply G3.
-      * destruct (IHk a1 b1 G3) as (F1 & F2 & F3).
-        destruct (while_iter MPy tab ins d x bd k a1) as [[a2 t2] ba2]. destruct (while_iter MPy tab ins d x bd k b1) as [[b2 t2'] bb2].
-        unfold tr in *. cbn [fst snd] in *. subst t2' bb2. repeat split; try reflexivity; apply F3.
-  - rewrite !run_try, !pre_reset_py. cbn [reads_stmt] in Hr. rewrite forallb_app in Hr. apply andb_true_iff in Hr as [Hb Hh].
-    apply (sim_list K bd IHb); assumption.
-Qed.
-
-Lemma known_var_cons : forall locals A x y, known_var locals (x :: A) y = true ->
-  known_var locals A y = true \/ name_eqb y x = true.
-Proof.
-  intros locals A x y H. unfold known_var in *. unfold mem_name in *. cbn [existsb] in H.
-  destruct (negb (existsb (name_eqb y) locals)); [left; reflexivity|]. cbn [orb] in *.
-  apply orb_true_iff in H as [H|H]; [right; exact H|left; exact H].
-Qed.
-
-(* one pass over the annotated loop list: the C++ store (locals dropped) against Python's *)
-Lemma sim_ann_da : forall locals tab l A a b,
-  da_list locals A (map snd l) = true -> agree (known_var locals A) a b ->
-  exists A', tr (run_ann MPy tab false l a) = tr (run_ann MPy tab false l b) /\
-             snd (run_ann MPy tab false l a) = snd (run_ann MPy tab false l b) /\
-             agree (known_var locals A') (fst (fst (run_ann MPy tab false l a))) (fst (fst (run_ann MPy tab false l b))).
-Proof.
-  intros locals tab. induction l as [|[d s] r IH]; intros A a b Hda Ha.
-  - exists A. repeat split; try reflexivity; apply Ha.
-  - cbn [map snd da_list] in Hda. apply andb_true_iff in Hda as [Hr Hda].
-    cbn [run_ann]. destruct (sim_stmt (known_var locals A) s tab true false d a b Hr Ha) as (E1 & E2 & E3).
-    assert (E3' : agree (known_var locals (top_assign s ++ A))
-                    (fst (fst (run_stmt MPy tab true false d s a))) (fst (fst (run_stmt MPy tab true false d s b)))).
-    { destruct s; try exact E3. cbn [top_assign app]. cbn [run_stmt] in *. cbn [reads_stmt] in Hr.
-      destruct (agree_eval (known_var locals A) a b e Hr Ha) as [F1 F2].
-      destruct (eval e a) as [va a']. destruct (eval e b) as [vb b']. cbn [fst snd] in *. subst vb.
-      apply (agree_write_ext (known_var locals A) _ a' b' x va F2). intros y Hy. apply known_var_cons. exact Hy. }
-    destruct (run_stmt MPy tab true false d s a) as [[a1 t1] ba]. destruct (run_stmt MPy tab true false d s b) as [[b1 t1'] bb].
-    unfold tr in E1. cbn [fst snd] in *. subst t1' bb. destruct ba.
-    + exists (top_assign s ++ A). repeat split; try reflexivity; apply E3'.
-    + destruct (IH (top_assign s ++ A) a1 b1 Hda E3') as (A' & F1 & F2 & F3).
-      destruct (run_ann MPy tab false r a1) as [[a2 t2] ba2]. destruct (run_ann MPy tab false r b1) as [[b2 t2'] bb2].
-      unfold tr in *. cbn [fst snd] in *. subst t2' bb2. exists A'. repeat split; try reflexivity; apply F3.
-Qed.
-
-Lemma vlookup_drop : forall L l y, mem_name y L = false ->
-  vlookup y (filter (fun kv : name * Z => negb (mem_name (fst kv) L)) l) = vlookup y l.
-Proof.
-  intros L l y Hy. induction l as [|[y' w] r IH]; [reflexivity|]. cbn [filter fst vlookup].
-  destruct (name_eqb y y') eqn:E.
-  - apply name_eqb_eq in E. subst y'. rewrite Hy. cbn [negb vlookup]. rewrite name_eqb_refl. reflexivity.
-  - destruct (negb (mem_name y' L)); [cbn [vlookup]; rewrite E; exact IH|exact IH].
-Qed.
-
-Lemma agree_drop : forall locals A a b, agree (known_var locals A) a b -> agree (known_var locals []) (drop locals a) b.
-Proof.
-  intros locals A a b [H1 H2]. split; [|exact H2]. intros y Hy. unfold known_var in Hy. cbn [mem_name existsb] in Hy.
-  rewrite orb_false_r in Hy. apply negb_true_iff in Hy. unfold drop. cbn [v_vars].
-  rewrite (vlookup_drop locals _ y Hy). apply H1. unfold known_var. rewrite Hy. reflexivity.
-Qed.
-
-Lemma passes_refine_da : forall inp p,
-  no_intro_ann false (p_loop p) = true -> da_list (p_locals p) [] (map snd (p_loop p)) = true ->
-  forall n vc vp h, agree (known_var (p_locals p) []) vc vp ->
-  agree (known_var (p_locals p) []) (fst (run_passes MC inp p n vc h)) (fst (ann_passes (p_tab p) (p_loop p) n vp)) /\
-  map obs (snd (run_passes MC inp p n vc h)) = map obs (snd (ann_passes (p_tab p) (p_loop p) n vp)).
-Proof.
-  intros inp p Hni Hda. induction n as [|n IH]; intros vc vp h Ha; [split; [exact Ha|reflexivity]|].
-  cbn [run_passes ann_passes]. unfold run_pass.
-  pose proof (hk_poll_all inp p (p_polls p) h) as Hp.
-  destruct (poll_all inp p (p_polls p) h) as [h1 tp]. cbn [snd] in Hp.
-  destruct (run_annT_eqv (p_G p) MC false (p_tab p) (p_loop p) (stS p) vc) as (B1 & B2 & B3).
-  rewrite (mode_indep_ann (p_loop p) (p_tab p) false vc Hni) in B1, B2, B3.
-  destruct (sim_ann_da (p_locals p) (p_tab p) (p_loop p) [] vc vp Hda Ha) as (A' & E1 & E2 & E3).
-  destruct (run_annT (p_G p) MC false (stS p) (p_loop p) vc) as [[vcT tbT] brkT].
-  destruct (run_ann MPy (p_tab p) false (p_loop p) vc) as [[vc1 tb] brk].
-  destruct (run_ann MPy (p_tab p) false (p_loop p) vp) as [[vp1 tb'] brk'].
-  unfold tr in E1, B3. cbn [fst snd] in *. subst tb' brk' vcT brkT.
-  specialize (IH (drop (p_locals p) vc1) vp1 h1 (agree_drop _ _ _ _ E3)).
-  destruct (run_passes MC inp p n (drop (p_locals p) vc1) h1) as [v2 ts].
-  destruct (ann_passes (p_tab p) (p_loop p) n vp1) as [v2' ts'].
-  cbn [fst snd map] in *. destruct IH as [IH1 IH2]. split; [exact IH1|]. f_equal; [|exact IH2].
-  rewrite !obs_app, (obs_nobs tp (hk_nobs tp Hp)), (obs_nobs _ (hk_nobs _ (hk_ticks p))). exact (obs_eqv _ _ B3).
-Qed.
-
-Lemma agree_refl : forall K v, agree K v v.
-Proof. intros K v. split; reflexivity. Qed.
-
-Lemma vars_ok_parts : forall its, vars_ok its = true ->
-  no_intro_ann true (p_setup (transl its)) = true /\ no_intro_ann false (p_loop (transl its)) = true /\
-  da_list (p_locals (transl its)) [] (map snd (p_loop (transl its))) = true.
-Proof.
-  intros its H. unfold vars_ok in H. apply andb_true_iff in H as [H H3]. apply andb_true_iff in H as [H1 H2].
-  repeat split; assumption.
-Qed.
-
-Lemma once_then_repeat_da : forall inp n its,
-  transl_ok its = true -> vars_ok its = true -> one_main_last its = true ->
-  forall ts tl cu ps pl pu,
-  exec_phases inp n its = (ts, tl, cu) -> py_phases n its = (ps, pl, pu) ->
-  obs ts = obs ps /\ concat (map obs tl) = concat (map obs pl) /\ cu = pu /\
-  (no_main its = false -> map obs tl = map obs pl).
-Proof.
-  intros inp n its Hok Hvp Hml ts tl cu ps pl pu Hc Hp.
-  destruct (vars_ok_parts its Hvp) as (Hns & Hnl & Hda).
-  unfold exec_phases, run_setup in Hc. unfold py_phases in Hp.
-  set (p := transl its) in *. set (tab := flat_map decls_stmt (all_stmts its)) in *.
-  assert (Htab : p_tab p = tab) by reflexivity.
-  assert (Hset : p_setup p = fst (split_d [] its)) by reflexivity.
-  assert (Hloop : p_loop p = snd (split_d [] its)) by reflexivity.
-  destruct (py_shape its tab [] n v0 Hml Hok) as (v1 & t1 & Hr & Hcase).
-  destruct (run_annT_eqv (p_G p) MC true tab (p_setup p) (st0 p) v0) as (E1 & E2 & E3).
-  rewrite (mode_indep_ann (p_setup p) tab true v0 Hns), Hset, Hr in E1, E2, E3. rewrite <- Hset in E1, E2, E3.
-  destruct (run_annT (p_G p) MC true (st0 p) (p_setup p) v0) as [[vS tS] bS].
-  unfold tr in E3. cbn [fst snd] in E1, E2, E3. subst vS bS.
-  destruct (passes_refine_da inp p Hnl Hda n v1 v1 (setup_h inp p) (agree_refl _ v1)) as [Hv Ht].
-  destruct (run_passes MC inp p n v1 _) as [v' tl'] eqn:Erp. inversion Hc; subst ts tl cu. clear Hc.
-  cbn [fst snd] in Hv, Ht. rewrite Htab, Hloop in Hv, Ht.
-  rewrite obs_app, (obs_nobs _ (nobs_hoists p)). cbn [app]. rewrite (obs_eqv _ _ E3).
-  destruct Hcase as [(Hnm & Hb & Hpy)|(Hnm & d' & body & Hb & Hpy)].
-  - rewrite Hpy in Hp. inversion Hp; subst ps pl pu. clear Hp. rewrite Hb in Hv, Ht.
-    destruct (ann_passes_nil tab n v1) as [Hv1 Hc1]. rewrite Ht, Hc1. rewrite Hv1 in Hv. destruct Hv as [_ Hu].
-    repeat split; try reflexivity; try exact Hu. rewrite Hnm. discriminate.
-  - rewrite Hpy in Hp. rewrite Hb, ann_passes_loop in Hv, Ht.
-    destruct (py_loop tab d' body n v1) as [v2 tl2]. inversion Hp; subst ps pl pu. clear Hp.
-    cbn [fst snd] in Hv, Ht. rewrite Ht. destruct Hv as [_ Hu]. repeat split; try reflexivity; exact Hu.
-Qed.
-
-Lemma da_no_locals : forall A l, da_list [] A l = true.
-Proof.
-  intros A l. revert A. induction l as [|s r IH]; intro A; [reflexivity|]. cbn [da_list]. rewrite IH, andb_true_r.
-  apply forallb_forall. intros y _. reflexivity.
-Qed.
-
-Lemma vars_persist_ok : forall its, vars_persist its = true -> vars_ok its = true.
-Proof.
-  intros its H. destruct (vars_persist_parts its H) as (H1 & H2 & H3). unfold vars_ok.
-  rewrite H2, H3, H1, da_no_locals. reflexivity.
-Qed.
-
-Lemma once_then_repeat_trace_da : forall inp n its,
-  transl_ok its = true -> vars_ok its = true -> one_main_last its = true ->
-  obs (exec inp n its) = py_exec n its.
-Proof.
-  intros inp n its Hok Hvp Hml. unfold exec, py_exec.
-  destruct (exec_phases inp n its) as [[ts tl] cu] eqn:Ec. destruct (py_phases n its) as [[ps pl] pu] eqn:Ep.
-  destruct (once_then_repeat_da inp n its Hok Hvp Hml _ _ _ _ _ _ Ec Ep) as (H1 & H2 & _ & _).
-  rewrite obs_app, obs_concat, H1, H2. reflexivity.
-Qed.
-
 (* mon = SerialMonitor(9600); g = 0
    while True:
-       t0 = g + 1; g = t0 + 1; mon.write(t0)         t0 is a local of loop(), assigned before it is read *)
+       t0 = g + 1; g = t0 + 1; mon.write(t0)         t0 is first assigned at the body level of the main loop: a global *)
 Definition n_t0 : name := [116; 48].
 Definition w_local_ok : list item :=
   [IStmt (SDecl d_mon); IStmt (SSet n_g (RConst 0));
    IMainLoop [SSet n_t0 (RAdd n_g 1); SSet n_g (RAdd n_t0 1); SShow n_mon n_t0]].
 
 Lemma local_ok_example :
-  transl_ok w_local_ok = true /\ vars_ok w_local_ok = true /\ vars_persist w_local_ok = false /\
-  one_main_last w_local_ok = true /\ locals_of w_local_ok = [n_t0] /\
-  py_exec 3 w_local_ok = [EVal n_t0 1; EVal n_t0 3; EVal n_t0 5] /\ vars_ok w_looplocal = false.
+  transl_ok w_local_ok = true /\ globals_of w_local_ok = [n_g; n_t0] /\ locals_of w_local_ok = [] /\
+  ir_loop w_local_ok = [NVarAssign n_t0; NVarAssign n_g; NShow n_t0] /\
+  py_exec 3 w_local_ok = [EVal n_t0 1; EVal n_t0 3; EVal n_t0 5] /\
+  obs (exec no_input 3 w_local_ok) = py_exec 3 w_local_ok.
 Proof. vm_compute. repeat split; reflexivity. Qed.
 
 (* ------------------------------------------------------------------ the IR placement keeps every statement, once, in order *)
@@ -2498,9 +2225,7 @@ Qed.
 
 Lemma marks_prom : forall top ins nn, flat_map marks_irn (prom top ins nn) = [].
 Proof.
-  intros top ins nn. unfold prom. destruct (top && ins); [reflexivity|]. destruct top.
-  - induction nn as [|x r IH]; [reflexivity|]. cbn. exact IH.
-  - induction nn as [|x r IH]; [reflexivity|]. cbn. exact IH.
+  reflexivity.
 Qed.
 
 Lemma marks_ir_list : forall l,
@@ -2525,7 +2250,7 @@ Proof.
     intros top ins d; try reflexivity.
   - cbn [ir_stmt marks_stmt]. destruct (mem_name x d); [reflexivity|]. destruct (top && ins).
     + destruct e; reflexivity.
-    + destruct top; reflexivity.
+    + reflexivity.
   - cbn [ir_stmt marks_stmt]. rewrite flat_map_app, marks_prom, !ir_block_eq. cbn [app flat_map marks_irn].
     rewrite app_nil_r. f_equal; apply marks_ir_list; assumption.
   - cbn [ir_stmt marks_stmt]. rewrite flat_map_app, marks_prom, ir_block_eq. cbn [app flat_map marks_irn].
@@ -2567,9 +2292,8 @@ Proof.
     assert (HS : forall s top ins d, Forall (fun n => match n with NPoll _ | NTick _ => False | _ => True end) (ir_stmt top ins d s)).
     { intros s top ins d. destruct s; cbn [ir_stmt]; repeat constructor.
       1: { destruct (mem_name x d); [repeat constructor|]. destruct (top && ins); [destruct e; repeat constructor|].
-           destruct top; repeat constructor. }
-      all: apply Forall_app; (split; [|repeat constructor]); unfold prom; (destruct (top && ins); [constructor|]);
-        destruct top; apply Forall_forall; intros n Hn; apply in_map_iff in Hn as (y & <- & _); exact I. }
+           repeat constructor. }
+      all: apply Forall_app; (split; [|repeat constructor]); unfold prom; constructor. }
     assert (HL : forall l top ins d, Forall (fun n => match n with NPoll _ | NTick _ => False | _ => True end) (ir_list top ins d l)).
     { induction l as [|s r IH]; intros top ins d; [constructor|]. cbn [ir_list]. apply Forall_app. split; [apply HS|apply IH]. }
     clear H1 H2 P1 P2. generalize (@nil name). induction its as [|it r IH]; intro d; [constructor|]. destruct it as [s|b|f b]; cbn [ir_items].
@@ -2795,7 +2519,7 @@ Definition w_promoted : list item :=
               SShow n_mon n_total; SShow n_mon n_step; SShow n_mon n_w; SShow n_mon n_q]].
 
 Lemma promoted_example :
-  transl_ok w_promoted = true /\ vars_ok w_promoted = true /\ vars_persist w_promoted = true /\
+  transl_ok w_promoted = true /\
   one_main_last w_promoted = true /\
   globals_of w_promoted = [n_flag; n_n; n_step; n_total; n_w; n_q] /\ locals_of w_promoted = [] /\
   ir_loop w_promoted = [NVarAssign n_total; NVarAssign n_step; NVarAssign n_w; NVarAssign n_q;
@@ -2838,84 +2562,75 @@ Proof.
     destruct (mem_name x d), (name_eqb x a), (mem_name x (fresh (a :: d) r)), (mem_name x r); cbn in *; congruence.
 Qed.
 
-Lemma vardecls_prom : forall top ins nn x, mem_name x nn = false ->
-  mem_name x (flat_map vardecls_irn (prom top ins nn)) = false.
+(* ------------------------------------------------------------------ no name is declared inside setup() / loop() *)
+Lemma vardecls_ir_list : forall l,
+  Forall (fun s => forall top ins d, flat_map vardecls_irn (ir_stmt top ins d s) = []) l ->
+  forall top ins d, flat_map vardecls_irn (ir_list top ins d l) = [].
 Proof.
-  intros top ins nn x H. unfold prom. destruct (top && ins); [reflexivity|]. destruct top.
-  - induction nn as [|y r IH]; [reflexivity|]. cbn [map flat_map vardecls_irn app]. rewrite mem_cons in *.
-    apply orb_false_iff in H as [H1 H2]. rewrite H1. exact (IH H2).
-  - induction nn as [|y r IH]; [reflexivity|]. cbn [map flat_map vardecls_irn app]. apply IH.
-    rewrite mem_cons in H. apply orb_false_iff in H as [_ H2]. exact H2.
+  intros l HF. induction HF as [|s r Hs _ IH]; intros top ins d; [reflexivity|].
+  cbn [ir_list]. rewrite flat_map_app, Hs, IH. reflexivity.
 Qed.
 
-Lemma nodecl_list : forall x l,
-  Forall (fun s => forall top ins d, mem_name x d = true ->
-                   mem_name x (flat_map vardecls_irn (ir_stmt top ins d s)) = false) l ->
-  forall top ins d, mem_name x d = true -> mem_name x (flat_map vardecls_irn (ir_list top ins d l)) = false.
+Lemma vardecls_ir_stmt : forall s top ins d, flat_map vardecls_irn (ir_stmt top ins d s) = [].
 Proof.
-  intros x l HF. induction HF as [|s r Hs _ IH]; intros top ins d H; [reflexivity|].
-  cbn [ir_list]. rewrite flat_map_app, mem_name_app, (Hs top ins d H). cbn [orb].
-  apply IH. rewrite mem_name_app, H. reflexivity.
+  intro s. induction s as [id dev|dd|y e|dv y|l| |y b el IHb IHe|c b IHb|y b IHb|b h IHb IHh] using stmt_ind';
+    intros top ins d; try reflexivity.
+  - cbn [ir_stmt]. destruct (mem_name y d); [reflexivity|]. destruct (top && ins); [destruct e; reflexivity|reflexivity].
+  - cbn [ir_stmt prom app flat_map vardecls_irn]. rewrite app_nil_r, !ir_block_eq.
+    rewrite (vardecls_ir_list b IHb), (vardecls_ir_list el IHe). reflexivity.
+  - cbn [ir_stmt prom app flat_map vardecls_irn]. rewrite app_nil_r, !ir_block_eq. exact (vardecls_ir_list b IHb false ins d).
+  - cbn [ir_stmt prom app flat_map vardecls_irn]. rewrite app_nil_r, !ir_block_eq. exact (vardecls_ir_list b IHb false ins d).
+  - cbn [ir_stmt prom app flat_map vardecls_irn]. rewrite app_nil_r, !ir_block_eq.
+    rewrite (vardecls_ir_list b IHb), (vardecls_ir_list h IHh). reflexivity.
 Qed.
 
-Lemma nodecl_stmt : forall x s top ins d, mem_name x d = true ->
-  mem_name x (flat_map vardecls_irn (ir_stmt top ins d s)) = false.
+Lemma vardecls_ir_items : forall its d,
+  flat_map vardecls_irn (fst (ir_items d its)) = [] /\ flat_map vardecls_irn (snd (ir_items d its)) = [].
 Proof.
-  intros x s. induction s as [id dev|dd|y e|dv y|l| |y b el IHb IHe|c b IHb|y b IHb|b h IHb IHh] using stmt_ind';
-    intros top ins d H; try reflexivity.
-  - cbn [ir_stmt]. destruct (mem_name y d) eqn:E; [reflexivity|]. destruct (top && ins); [destruct e; reflexivity|].
-    destruct top; [|reflexivity]. cbn [flat_map vardecls_irn app]. rewrite mem_cons. cbn [mem_name existsb]. rewrite orb_false_r.
-    destruct (name_eqb x y) eqn:F; [|reflexivity]. apply name_eqb_eq in F. subst y. congruence.
-  - cbn [ir_stmt]. rewrite flat_map_app, mem_name_app, vardecls_prom by (apply fresh_not_mem; exact H).
-    cbn [flat_map vardecls_irn app orb]. rewrite app_nil_r, !ir_block_eq, mem_name_app.
-    rewrite (nodecl_list x b IHb false ins d H), (nodecl_list x el IHe false ins d H). reflexivity.
-  - cbn [ir_stmt]. rewrite flat_map_app, mem_name_app, vardecls_prom by (apply fresh_not_mem; exact H).
-    cbn [flat_map vardecls_irn app orb]. rewrite app_nil_r, !ir_block_eq.
-    exact (nodecl_list x b IHb false ins d H).
-  - cbn [ir_stmt]. rewrite flat_map_app, mem_name_app, vardecls_prom by (apply fresh_not_mem; exact H).
-    cbn [flat_map vardecls_irn app orb]. rewrite app_nil_r, !ir_block_eq.
-    exact (nodecl_list x b IHb false ins d H).
-  - cbn [ir_stmt]. rewrite flat_map_app, mem_name_app, vardecls_prom by (apply fresh_not_mem; exact H).
-    cbn [flat_map vardecls_irn app orb]. rewrite app_nil_r, !ir_block_eq, mem_name_app.
-    rewrite (nodecl_list x b IHb false ins d H), (nodecl_list x h IHh false ins d H). reflexivity.
+  induction its as [|it r IH]; intro d; [split; reflexivity|]. destruct it as [s|b|f b]; cbn [ir_items].
+  - specialize (IH (d ++ assigned_stmt s)). destruct (ir_items (d ++ assigned_stmt s) r) as [a c]. cbn [fst snd] in *.
+    destruct IH as [IH1 IH2]. split; [|exact IH2]. rewrite flat_map_app, vardecls_ir_stmt, IH1. reflexivity.
+  - specialize (IH (d ++ flat_map assigned_stmt b)). destruct (ir_items (d ++ flat_map assigned_stmt b) r) as [a c].
+    cbn [fst snd] in *. destruct IH as [IH1 IH2]. split; [exact IH1|]. rewrite flat_map_app, IH2, app_nil_r.
+    apply vardecls_ir_list. apply Forall_forall. intros s _. apply vardecls_ir_stmt.
+  - apply IH.
 Qed.
 
-Lemma nodecl_items : forall x its d, main_last its = true ->
-  mem_name x (d ++ flat_map assigned_stmt (fst (split its))) = true ->
-  mem_name x (flat_map vardecls_irn (snd (ir_items d its))) = false.
+Lemma no_vardecl_nodes : forall its,
+  flat_map vardecls_irn (ir_setup its) = [] /\ flat_map vardecls_irn (ir_loop its) = [] /\ locals_of its = [].
 Proof.
-  intros x. induction its as [|it r IH]; intros d Hm H; [reflexivity|]. destruct it as [s|b|f b].
-  - rewrite main_last_cons_stmt in Hm. cbn [ir_items split] in *.
-    specialize (IH (d ++ assigned_stmt s) Hm).
-    destruct (split r) as [a c]. destruct (ir_items (d ++ assigned_stmt s) r) as [a' c']. cbn [fst snd flat_map] in *.
-    apply IH. rewrite <- app_assoc. exact H.
-  - apply main_last_cons_main in Hm. subst r. cbn [ir_items split fst snd flat_map] in *. rewrite app_nil_r in *.
-    apply (nodecl_list x b); [|exact H]. apply Forall_forall. intros s _ top ins d0. apply nodecl_stmt.
-  - rewrite main_last_cons_func in Hm. cbn [ir_items split] in *. apply IH; assumption.
+  intro its. destruct (vardecls_ir_items its []) as [H1 H2]. split; [exact H1|]. split; [|apply no_locals].
+  unfold ir_loop. rewrite !flat_map_app, H2.
+  assert (Hp : forall l, flat_map vardecls_irn (map NPoll l) = []) by (induction l as [|y r IH]; [reflexivity|exact IH]).
+  assert (Ht : forall l, flat_map vardecls_irn (map NTick l) = []) by (induction l as [|y r IH]; [reflexivity|exact IH]).
+  rewrite Hp, Ht. reflexivity.
 Qed.
 
-Lemma nolocal_items : forall x its d, main_last its = true ->
-  mem_name x (d ++ flat_map assigned_stmt (fst (split its))) = true ->
-  mem_name x (snd (classify d its)) = false.
-Proof.
-  intros x. induction its as [|it r IH]; intros d Hm H; [reflexivity|]. destruct it as [s|b|f b].
-  - rewrite main_last_cons_stmt in Hm. cbn [classify split] in *.
-    specialize (IH (d ++ fresh d (assigned_stmt s)) Hm).
-    destruct (split r) as [a c]. destruct (classify (d ++ fresh d (assigned_stmt s)) r) as [g l]. cbn [fst snd flat_map] in *.
-    apply IH. rewrite mem_name_app, mem_fresh, <- mem_name_app, <- app_assoc. exact H.
-  - apply main_last_cons_main in Hm. subst r. cbn [classify split fst snd flat_map] in *. rewrite app_nil_r in *.
-    apply fresh_not_mem. exact H.
-  - rewrite main_last_cons_func in Hm. cbn [classify split] in *. apply IH; assumption.
-Qed.
-
-Lemma prologue_names_global : forall its x, one_main_last its = true ->
-  mem_name x (flat_map assigned_stmt (fst (split its))) = true ->
+Lemma prologue_names_global : forall its x,
   mem_name x (flat_map vardecls_irn (ir_loop its)) = false /\ mem_name x (locals_of its) = false.
 Proof.
-  intros its x Hm H. split.
-  - unfold ir_loop. rewrite !flat_map_app, !mem_name_app.
-    assert (Hp : forall l, flat_map vardecls_irn (map NPoll l) = []) by (induction l as [|y r IH]; [reflexivity|exact IH]).
-    assert (Ht : forall l, flat_map vardecls_irn (map NTick l) = []) by (induction l as [|y r IH]; [reflexivity|exact IH]).
-    rewrite Hp, Ht. cbn [mem_name existsb orb]. apply nodecl_items; [exact Hm|exact H].
-  - unfold locals_of. apply nolocal_items; [exact Hm|exact H].
+  intros its x. destruct (no_vardecl_nodes its) as (_ & H2 & H3). rewrite H2, H3. split; reflexivity.
 Qed.
+
+(* every assigned name - in the prologue or inside [while True:], at any depth - is a sketch global *)
+Lemma globals_all : forall its d x,
+  mem_name x (d ++ fst (classify d its)) =
+  mem_name x (d ++ flat_map assigned_stmt (fst (split its)) ++ flat_map assigned_stmt (snd (split its))).
+Proof.
+  induction its as [|it r IH]; intros d x; [reflexivity|]. destruct it as [s|b|f b]; cbn [classify split].
+  - specialize (IH (d ++ fresh d (assigned_stmt s)) x).
+    destruct (classify (d ++ fresh d (assigned_stmt s)) r) as [g l]. destruct (split r) as [a c]. cbn [fst snd flat_map] in *.
+    rewrite app_assoc, IH. rewrite !mem_name_app. rewrite <- (mem_name_app x d (fresh d (assigned_stmt s))), mem_fresh, !mem_name_app.
+    rewrite !orb_assoc. reflexivity.
+  - specialize (IH (d ++ fresh d (flat_map assigned_stmt b)) x).
+    destruct (classify (d ++ fresh d (flat_map assigned_stmt b)) r) as [g l]. destruct (split r) as [a c]. cbn [fst snd] in *.
+    rewrite app_assoc, IH. rewrite !flat_map_app, !mem_name_app.
+    rewrite <- (mem_name_app x d (fresh d (flat_map assigned_stmt b))), mem_fresh, !mem_name_app.
+    destruct (mem_name x d), (mem_name x (flat_map assigned_stmt b)), (mem_name x (flat_map assigned_stmt a)),
+      (mem_name x (flat_map assigned_stmt c)); reflexivity.
+  - apply IH.
+Qed.
+
+Lemma assigned_names_global : forall its x,
+  mem_name x (globals_of its) = mem_name x (flat_map assigned_stmt (fst (split its) ++ snd (split its))).
+Proof. intros its x. unfold globals_of. rewrite flat_map_app. exact (globals_all its [] x). Qed.
